@@ -74,6 +74,8 @@ def classify(solver, tok):
 
 def observer(solver, tok, f_after):
     ctx = CTX
+    if not probes.take("step"):
+        return
     cls, info = classify(solver, tok)
     if cls is None:
         ctx.skip("step:" + info)
